@@ -1,0 +1,66 @@
+//go:build verif
+
+// Verification hooks for the admin endpoint (build tag `verif` only; add-only,
+// no behaviour of the normal build depends on this file).
+
+package caddy
+
+import (
+	"fmt"
+	"net/http"
+)
+
+// VerifAdminHandler builds the real, unexported adminHandler exactly the way
+// replaceLocalAdminServer (remote == false) and replaceRemoteAdminServer
+// (remote == true) do, for the given admin config and listener address, and
+// returns it as an http.Handler. Calling ServeHTTP on the result enters
+// adminHandler.ServeHTTP, i.e. the same code path a request accepted by the
+// admin listener takes. For the remote endpoint the public keys of
+// cfg.Remote.AccessControl are extracted from the base64 DER certificates with
+// the same loop replaceRemoteAdminServer uses (skipped for entries whose keys
+// were already extracted).
+func VerifAdminHandler(cfg *AdminConfig, addr NetworkAddress, remote bool) (http.Handler, error) {
+	if cfg == nil {
+		cfg = &AdminConfig{Listen: DefaultAdminListen}
+	}
+	if remote && cfg.Remote != nil {
+		for i, accessControl := range cfg.Remote.AccessControl {
+			if accessControl == nil || len(accessControl.publicKeys) > 0 {
+				continue
+			}
+			for j, certBase64 := range accessControl.PublicKeys {
+				cert, err := decodeBase64DERCert(certBase64)
+				if err != nil {
+					return nil, fmt.Errorf("access control %d public key %d: parsing base64 certificate DER: %v", i, j, err)
+				}
+				accessControl.publicKeys = append(accessControl.publicKeys, cert.PublicKey)
+			}
+		}
+	}
+	h := cfg.newAdminHandler(addr, remote, Context{})
+	// newAdminHandler remembers module routers for later provisioning; the
+	// harness builds many handlers, so do not let that list grow.
+	cfg.routers = nil
+	return h, nil
+}
+
+// VerifParseAdminListenAddr is parseAdminListenAddr with the default the local
+// (remote == false) or the remote endpoint uses.
+func VerifParseAdminListenAddr(addr string, remote bool) (NetworkAddress, error) {
+	if remote {
+		return parseAdminListenAddr(addr, DefaultRemoteAdminListen)
+	}
+	return parseAdminListenAddr(addr, DefaultAdminListen)
+}
+
+// VerifSwapConfigIndex replaces the "@id" -> expanded config path index that
+// handleConfigID consults (rawCfgIndex, normally rebuilt by changeConfig) and
+// returns the previous one, so that /id/ redirection can be driven without a
+// full config load. Pass the returned map back to restore.
+func VerifSwapConfigIndex(idx map[string]string) map[string]string {
+	rawCfgMu.Lock()
+	defer rawCfgMu.Unlock()
+	old := rawCfgIndex
+	rawCfgIndex = idx
+	return old
+}
